@@ -32,6 +32,7 @@ func init() {
 			compactionShape(r)
 			kvPutGrowsStore(r)
 			kvInsertIntoWritableHead(r)
+			kvEntrySizeFormula(r)
 			c12ResumeRestartsNextTable(r)
 			engineBuiltFromEffectiveConfig(r, "engine-built-from-effective-config")
 		},
